@@ -86,7 +86,7 @@ extern int vk_faults_off;		/* drain: ignore all tapes */
 struct vkstats {
 	uint64_t polls, blocks, poll_eintr, poll_spurious, recv_calls, recv_short, recv_eagain, recv_eintr,
 	    recv_err, recv_eof, send_calls, send_short, send_eagain, send_eintr, send_err, accept_soft,
-	    accept_err, connect_calls, connect_blocking, bare_err, sock_fail, hup_reported, script_events, bytes_in, bytes_out, deadlock_breaks;
+	    accept_err, connect_calls, connect_blocking, bare_err, getsockopt_calls, getsockopt_failed, close_calls, close_failed, sock_fail, hup_reported, script_events, bytes_in, bytes_out, deadlock_breaks;
 };
 extern struct vkstats vk_stats;
 
@@ -109,6 +109,7 @@ extern int (* vk_on_connect)(struct vsock *, int port, struct vk_connect_answer 
 extern int (* vk_on_socket)(void);
 extern int (* vk_on_bind)(struct vsock *);	/* return errno to fail bind(), 0 to succeed */	/* return errno to fail socket(), 0 to succeed */
 extern void (* vk_on_close)(struct vsock *);
+extern int vk_getsockopt_fail_at, vk_close_fail_at;	/* index of the call (over the run) that fails, or -1 */
 extern int vk_bare_err;		/* 1: a pending socket error is reported by poll as POLLERR alone (no POLLIN/POLLOUT) */
 extern const char * vk_block_oracle;	/* oracle id for "the process is stuck in a blocking system call" (engine sets it) */
 extern void (* vk_on_recv)(struct vsock *, long result, int err);
